@@ -682,9 +682,6 @@ def build_blocks(
             all_blocks.append(block)
             block.add_ent(ent1)
             block.add_ent(ent2)
-    if not overflow_block.ents:
-        all_blocks.remove(overflow_block)
-
     # Now, add every remaining ent to overflow blocks.
     print(f'{len(todo)} ents in overflow blocks.')
     for ent in list(todo):
@@ -692,6 +689,10 @@ def build_blocks(
         if overflow_block.bytesize >= MAX_BLOCK_SIZE:
             overflow_block = BuiltBlock()
             all_blocks.append(overflow_block)
+    # Only the last overflow block can still be empty, and an empty block must not be written.
+    # (Checking this before filling it dropped the first overflow block and its entities.)
+    if not overflow_block.ents:
+        all_blocks.remove(overflow_block)
 
     del ent_to_block, todo  # Not useful any more.
     all_blocks.sort(key=lambda block: len(block.ents))
